@@ -716,10 +716,10 @@ func streamDiffPairs(s *stream.Stream, c *streamCtx) error {
 	if c.thorough() {
 		maxLines = 4
 	}
-	alpha := []string{"a", "b", "c"}
+	alpha := []string{"a", "b", ""} // the third letter is the blank line
 	files := allFiles(alpha, maxLines)
 	s.Exhaustive = true
-	s.Rule = fmt.Sprintf("ALL ordered (old,new) pairs of the %d files of ≤%d lines over the 3-line alphabet {a,b,c} (repeated lines; each non-empty file with and without trailing newline; identical pairs included), "+
+	s.Rule = fmt.Sprintf("ALL ordered (old,new) pairs of the %d files of ≤%d lines over the 3-line alphabet {a,b,blank line} (repeated lines; each non-empty file with and without trailing newline; identical pairs included), "+
 		"every file as a new file, plus a second repository with every file deleted and changed test / vendor / testdata files; one directory per pair, two commits, ONE real git repository; "+
 		"precision 2, 3 and INIT (and precision 1 on the complete ≤3-line space: blame costs ~5 ms per file; the ≤4-line space × precision 1 was run once, findings/C04_thorough_full_pairs_run.txt) through the real getDiff (hook) with 16 worker threads; "+
 		"model fed with go-git's own chunks / blame; judge:diff against git cat-file contents on every answer; "+
